@@ -19,6 +19,7 @@ def solo_case(b, m, expect):
 def run(prop, tier, seed):
     rep = vlib.Report(prop, tier, seed, "translation_validation")
     wd = vlib.workdir(prop)
+    lim = cmatch.Limiter(rep)
     batches, info = cmatch.generate(prop, tier, seed, wd, calls=True)
     per, sinfo = cmatch.static_observe(batches, wd)
 
@@ -30,7 +31,7 @@ def run(prop, tier, seed):
             r = per[(b["id"], m["g"])]
             if "anomaly" in r:
                 n_panics += 1
-                rep.finding("C12|checker-fails|%s|%s" % (m["tyname"], m["armstxt"]),
+                lim.finding(m["key12fail"],
                             solo_case(b, m, {"check": "diag" if not m["exhaustive"] or any(m["redundant"]) else "ok"}),
                             r["anomaly"], [{"field": "check", "want": "a verdict", "got": r["anomaly"].get("check")}],
                             "the checker neither accepts nor rejects match %s over %s: %s" % (
@@ -39,7 +40,7 @@ def run(prop, tier, seed):
             n_cmp += 1
             if r["nonexh"] != (not m["exhaustive"]):
                 want = "diag" if not m["exhaustive"] or any(m["redundant"]) else "ok"
-                rep.finding(m["key12"], solo_case(b, m, {"check": want}),
+                lim.finding(m["key12"], solo_case(b, m, {"check": want}),
                             {"nonexhaustive_reported": r["nonexh"], "missing": r["wits"]},
                             [{"field": "nonexhaustive_reported", "want": not m["exhaustive"], "got": r["nonexh"]}],
                             "match over %s with arms [%s]: specification says %s (%d of %d values unmatched), compiler %s%s" % (
@@ -56,32 +57,36 @@ def run(prop, tier, seed):
     # ---- (2) every reported missing pattern covers an unmatched value (TLC decides)
     verdicts, wres = cmatch.validate_witnesses(prop, tier, wit_records, wd)
     vcount = {}
+    n_lenient = 0
     for rid, v in verdicts.items():
         b, m, r = wit_index[rid]
         if not v["verdicts"] and not m["exhaustive"]:
-            rep.finding("C12|non-exhaustive-report-without-missing-patterns|%s|%s" % (m["tyname"], m["armstxt"]),
+            lim.finding("C12|non-exhaustive-report-without-missing-patterns|%s|%s" % (m["tyname"], m["armstxt"]),
                         solo_case(b, m, {"check": "diag"}), {"missing": r["wits"]},
                         [{"field": "missing", "want": "at least one pattern", "got": []}], "no missing pattern listed")
+        n_lenient += sum(1 for x in v["lenient"] if x)
         for w, vd, key in zip(r["wits"], v["verdicts"], v["keys"]):
             vcount[vd] = vcount.get(vd, 0) + 1
             if vd in ("bad", "empty"):
-                rep.finding(key, solo_case(b, m, {"check": "diag"}), {"missing": r["wits"]},
+                lim.finding(key, solo_case(b, m, {"check": "diag"}), {"missing": r["wits"]},
                             [{"field": "missing pattern", "want": "covers an unmatched value", "got": w, "verdict": vd}],
                             "match over %s with arms [%s]: reported missing pattern `%s` %s" % (
                                 m["tyname"], m["armstxt"], w,
                                 "is not a pattern of the scrutinee type" if vd == "bad" else "covers no unmatched value"))
 
     # ---- (3) accepted matches run one of their arms for every value
-    rows, rinfo = cmatch.run_accepted(batches, per, wd)
+    rows, _rej, rinfo = cmatch.run_matches(batches, lambda b, m: cmatch.accepted(per.get((b["id"], m["g"]))), wd)
     n_calls = 0
     for b, m, c, line, status in rows:
+        if status.startswith("notaccepted:"):
+            continue
         n_calls += 1
         ok = status == "done" and line is not None and any(line == p or line.startswith(p + ":") for p in m_prefixes(m))
         if not ok:
             case = {"id": "%s_m%s" % (b["id"], m["g"]),
                     "files": {"main.abra": "\n".join(b["header"] + m["fn"] + [c["stmt"]]) + "\n"},
                     "expect": {"status": "done"}, "type": m["tyname"], "arms": m["armstxt"]}
-            rep.finding("C12|accepted-match-runs-no-arm|%s|%s" % (m["tyname"], m["armstxt"]), case,
+            lim.finding(m["key12run"], case,
                         {"status": status, "line": line},
                         [{"field": "out", "want": {"oneof-prefix": m_prefixes(m)}, "got": line}],
                         "accepted match over %s [%s]: %s did not run one of the arms (status %s, printed %r)" % (
@@ -102,12 +107,14 @@ def run(prop, tier, seed):
         "exhaustive": True,
         "static_verdicts_compared": n_cmp, "compiler_reported_nonexhaustive": n_rejected,
         "missing_patterns_judged_by_tlc": sum(vcount.values()), "missing_pattern_verdicts": vcount,
+        "missing_patterns_read_leniently": n_lenient,
         "runtime_calls_checked": n_calls, "checker_failures": n_panics,
         "universe": info["sizes"], "tlc_states": info["tlc_states"], "tlc_wall_s": info["tlc_wall_s"],
         "sim_behaviours": info["sim_files"], "samples": samples,
     })
     cov.update(sinfo)
     cov.update(rinfo)
+    cov["disagreeing_cases_by_family"] = lim.summary()
     if wres is not None:
         cov["witness_tlc_wall_s"] = round(wres.wall, 1)
     rep.coverage = cov
